@@ -57,6 +57,7 @@ partial def loop (h : IO.FS.Stream) (out : IO.FS.Stream) (f : String → String)
   loop h out f
 
 def modes : List (String × (String → String)) := [
+  ("c07-filter", C07.handleFilter),
   ("c16incl", C16Incl.handle),
   ("c12env", C12Env.handle),
   ("c09t", C09T.handle),
